@@ -3,6 +3,7 @@
 package main
 
 import (
+	"time"
 	"fmt"
 	"math/big"
 	"reflect"
@@ -22,6 +23,7 @@ type boxGen struct {
 	pinned  bool // C18: several pools pinned to one namespace + a selector-pinned pool
 	tight   bool // C07: very few addresses, one dominant sharing key, two ports: exhaustion and port conflicts everywhere
 	hot     func() string // key of the service whose status write failed last ("" = none)
+	deleted []string      // namespace/name of deleted services: some are created again under the same name
 }
 
 func (g *boxGen) genPools() []metallbv1beta1.IPAddressPool {
@@ -68,6 +70,7 @@ func (g *boxGen) genPools() []metallbv1beta1.IPAddressPool {
 var boxPortPalette = []v1.ServicePort{
 	{Protocol: v1.ProtocolTCP, Port: 80}, {Protocol: v1.ProtocolTCP, Port: 443},
 	{Protocol: v1.ProtocolUDP, Port: 53}, {Protocol: v1.ProtocolTCP, Port: 8080},
+	{Protocol: v1.ProtocolTCP, Port: 53}, // the same number as UDP/53: (protocol, port) pairs, not numbers, must be disjoint
 }
 
 func boxPoolList(s *boxStore) []metallbv1beta1.IPAddressPool {
@@ -210,6 +213,26 @@ func (g *boxGen) setRequest(svc *v1.Service, s *boxStore) {
 				}
 			}
 		}
+		if len(fams) == 2 && g.r.Chance(1, 3) {
+			// ask for the pair another service holds (to share it), in either order
+			for _, k := range vfShuffled(g.r, vfSortedKeys(s.Services)) {
+				o := s.Services[k]
+				if o.Name == svc.Name && o.Namespace == svc.Namespace {
+					continue
+				}
+				if ing := o.Status.LoadBalancer.Ingress; len(ing) == 2 {
+					ips = []string{ing[0].IP, ing[1].IP}
+					if g.r.Bool() {
+						ips[0], ips[1] = ips[1], ips[0]
+					}
+					if ak := o.Annotations[AnnotationAllowSharedIP]; ak != "" && g.r.Chance(2, 3) {
+						delete(svc.Annotations, DeprecatedAnnotationAllowSharedIP)
+						svc.Annotations[AnnotationAllowSharedIP] = ak
+					}
+					break
+				}
+			}
+		}
 		if len(ips) == 2 && g.r.Chance(1, 5) {
 			ips = ips[:1]
 		}
@@ -302,6 +325,15 @@ func (g *boxGen) evCreate() boxUserEvent {
 			return "skipped (8 services)"
 		}
 		svc := g.newService(s)
+		if len(g.deleted) > 0 && g.r.Chance(1, 3) {
+			// a new object under the name of a deleted one (another spec, no status)
+			k := vfPick(g.r, g.deleted)
+			if s.Services[k] == nil {
+				if i := strings.Index(k, "/"); i > 0 {
+					svc.Namespace, svc.Name = k[:i], k[i+1:]
+				}
+			}
+		}
 		s.Put(svc)
 		return boxSvcDump(svc)
 	}}
@@ -333,7 +365,17 @@ func (g *boxGen) evSvc(kind string) boxUserEvent {
 		switch kind {
 		case "svc-delete":
 			s.Delete(svc)
+			g.deleted = append(g.deleted, svc.Namespace+"/"+svc.Name)
 			return svc.Namespace + "/" + svc.Name
+		case "svc-terminating":
+			// deleted, but a finalizer keeps the object: it still exists and keeps what it holds
+			if svc.DeletionTimestamp == nil {
+				now := metav1.NewTime(time.Unix(1700000000, 0))
+				svc.DeletionTimestamp = &now
+				svc.Finalizers = []string{"example.com/hold"}
+			} else {
+				return "skipped (already terminating)"
+			}
 		case "svc-ports":
 			g.setPorts(svc)
 		case "svc-port-shrink":
@@ -480,7 +522,7 @@ func (cb *cbox) evResync() boxUserEvent {
 	}}
 }
 
-var boxSvcEventKinds = []string{"svc-delete", "svc-ports", "svc-port-shrink", "svc-rekey", "svc-policy", "svc-retype", "svc-request", "svc-unrequest", "svc-labels"}
+var boxSvcEventKinds = []string{"svc-terminating", "svc-delete", "svc-ports", "svc-port-shrink", "svc-rekey", "svc-policy", "svc-retype", "svc-request", "svc-unrequest", "svc-labels"}
 var boxPoolEventKinds = []string{"pool-new-layout", "pool-regroup", "pool-flip", "pool-drop", "pool-grow", "pool-shrink"}
 
 // randomEvent draws one user event.
@@ -519,5 +561,31 @@ func (cb *cbox) seedStore(g *boxGen) {
 	n := g.r.Range(1, 5)
 	for i := 0; i < n; i++ {
 		s.Put(g.newService(s))
+	}
+	if cb.mon.c04 && g.r.Bool() {
+		// two dual-stack services asking for the same pair of addresses (one sharing key, other ports),
+		// one lists the IPv4 address first, the other the IPv6 one
+		model := vfModelPools(crs, nil)
+		for _, pn := range vfSortedKeys(model) {
+			v4, v6 := model[pn].UsableAddrs(4, 3), model[pn].UsableAddrs(6, 3)
+			if len(v4) == 0 || len(v6) == 0 || !model[pn].Admits("ns1", nil) {
+				continue
+			}
+			a4, a6 := vfPick(g.r, v4), vfPick(g.r, v6)
+			for i, order := range []string{a4 + "," + a6, a6 + "," + a4} {
+				svc := g.newService(s)
+				svc.Namespace, svc.Labels = "ns1", nil
+				svc.Spec.Type = v1.ServiceTypeLoadBalancer
+				svc.Spec.ClusterIPs = []string{"172.16.0.1", "fd00::1"}
+				svc.Spec.IPFamilies = []v1.IPFamily{v1.IPv4Protocol, v1.IPv6Protocol}
+				svc.Spec.IPFamilyPolicy = ptr.To(v1.IPFamilyPolicyRequireDualStack)
+				svc.Spec.LoadBalancerIP = ""
+				svc.Spec.ExternalTrafficPolicy = v1.ServiceExternalTrafficPolicyTypeCluster
+				svc.Spec.Ports = []v1.ServicePort{boxPortPalette[i]}
+				svc.Annotations = map[string]string{AnnotationAllowSharedIP: "pair", AnnotationLoadBalancerIPs: order}
+				s.Put(svc)
+			}
+			break
+		}
 	}
 }
